@@ -350,6 +350,36 @@ int main(void)
 			printf(" | C - | I -\n");
 			free(blk); free(dat); free(fr);
 		}
+		else if (!strcmp(area, "lookup") && drv_nw == 3) {
+			/* mpt_message_encoder/decoder(code), mpt_encoding_type(code), mpt_encoding_value(name) */
+			if (!strcmp(op, "enc") || !strcmp(op, "dec")) {
+				if (drv_parse_nat(drv_w[2], &a) || a > 100000) { puts("bad-op"); continue; }
+				const char *fn = "?";
+				if (*op == 'e') {
+					MPT_TYPE(data_encoder) f = mpt_message_encoder((int) a);
+					fn = !f ? "none" : f == mpt_encode_string ? "command" : f == mpt_encode_cobs ? "cobs" : f == mpt_encode_cobs_r ? "cobs/r"
+					   : f == mpt_encode_cobs_zpe ? "cobs/zpe" : f == mpt_encode_cobs_zpe_r ? "cobs/zpe+r" : "?";
+				} else {
+					MPT_TYPE(data_decoder) f = mpt_message_decoder((int) a);
+					fn = !f ? "none" : f == mpt_decode_command ? "command" : f == mpt_decode_cobs ? "cobs" : f == mpt_decode_cobs_r ? "cobs/r"
+					   : f == mpt_decode_cobs_zpe ? "cobs/zpe" : f == mpt_decode_cobs_zpe_r ? "cobs/zpe+r" : "?";
+				}
+				printf("R fn=%s | C - | I -\n", fn);
+			}
+			else if (!strcmp(op, "type")) {
+				if (drv_parse_nat(drv_w[2], &a) || a > 100000) { puts("bad-op"); continue; }
+				const char *nm = mpt_encoding_type((int) a);
+				printf("R name=%s | C - | I -\n", nm ? nm : "null");
+			}
+			else if (!strcmp(op, "name")) {
+				if (drv_parse_data(drv_w[2], &dat, &dlen, &isnull) || isnull) { puts("bad-op"); continue; }
+				char *txt = malloc(dlen + 1);
+				memcpy(txt, dat, dlen); txt[dlen] = 0;
+				printf("R val=%d | C - | I -\n", mpt_encoding_value(txt, -1));
+				free(txt); free(dat);
+			}
+			else puts("bad-op");
+		}
 		else if (!strcmp(area, "pycmd") && drv_nw == 3) {
 			/* pycmd <msg> <frame returned by mpt.py:encode_command(msg) | raise> */
 			uint8_t *fr = 0; size_t flen = 0;
